@@ -440,16 +440,39 @@ def run(ctx):
         if k == "bend":
             return BendingPotential(equilibrium_angle=c["phi0"], prefactor=c["k"])
         if k == "bound":
-            return InversePowerCoulombBoundingPotential(prefactor=c["k"])
+            return clone(InversePowerCoulombBoundingPotential(prefactor=c["k"]), c)
         if k == "ewald":
             key = (c["par"], c["k"], c["L"])
             if key not in merged_cache:
                 if len(merged_cache) > 400:
                     merged_cache.clear()
                 a, fc, pc = c["par"]
-                merged_cache[key] = MergedImageCoulombPotential(alpha=a, fourier_cutoff=fc, position_cutoff=pc, prefactor=c["k"])
-            return merged_cache[key]
+                merged_cache[key] = {"fresh": MergedImageCoulombPotential(alpha=a, fourier_cutoff=fc, position_cutoff=pc, prefactor=c["k"])}
+            return clone(merged_cache[key]["fresh"], c, merged_cache[key])
         raise KeyError(k)
+
+    def clone(pot, c, cache=None):
+        """The C-backed potentials reach the event handlers not only freshly constructed: `Tagger.initialize` deep-copies the
+        prepared handler for the 2nd..n-th handler of a pool, and a dumped run unpickles them (custom __deepcopy__ /
+        __getstate__ / __setstate__ rebuild the C object). Every case is therefore evaluated on one of: the fresh object, a shallow
+        copy, a deep copy, a dill round trip — chosen from the case itself so that it is reproducible."""
+        import copy as _copy
+        variant = ("fresh", "deepcopy", "copy", "pickle")[hash((round(sum(c["s"]) * 1e6), c.get("dirn", 0))) % 4 if "s" in c else 0]
+        ctx.count("potential-instance:" + variant)
+        if variant == "fresh":
+            return pot
+        if cache is not None and variant in cache:
+            return cache[variant]
+        if variant == "deepcopy":
+            q = _copy.deepcopy(pot)
+        elif variant == "copy":
+            q = _copy.copy(pot)
+        else:
+            import dill
+            q = dill.loads(dill.dumps(pot))
+        if cache is not None:
+            cache[variant] = q
+        return q
 
     def call(pot, c, v=None, s=None, c1=None, c2=None):
         v = list(c["v"] if v is None else v)
